@@ -1,6 +1,6 @@
 """C10 — signal iterators report only real, registered, not-yet-reported deliveries (structural part)."""
 import re
-from .. import cfg
+from .. import cfg, inline
 from ..anchors import handler
 from ..atomics import sites
 from ..conds import facts_at, truth
@@ -216,6 +216,33 @@ def rule_c(ctx):
         ctx.check(okk, rid, "origin:%s-delegates" % meth, "WithOrigin::%s delegates to the raw exfiltrator with the same slot/signal/info" % meth, o.span, None)
 
 
+def rule_g(ctx):
+    """a delivery is recorded: the flag-backed exfiltrator's store raises the flag — an atomic write of the constant true into its slot argument,
+    exactly once on every path (a store that is skipped, conditional, or writes false loses the delivery although the consumer is woken)"""
+    F = ctx.F
+    rid = "C10.g"
+    ctx.rule(rid, "SignalOnly::store writes the constant true into the slot it is given, on every path", floor=1)
+    from .nf import NF
+    from ..atomics import sites
+    from .util import exactly_once
+    st0 = insts(F, r"^<signal_hook::iterator::exfiltrator::SignalOnly as signal_hook::iterator::exfiltrator::sealed::Exfiltrator>::store$", "SignalOnly::store", 1)[0]
+    ctx.fn(st0)
+    n = inline.cached(F, st0, keep=lambda c: False, tag="c10g", hof=True, thread=True)
+    ws = [x for x in sites(F, n) if x.aty == "bool" and x.op in ("store", "swap", "fetch_or", "compare_exchange", "fetch_and", "fetch_xor", "fetch_nand")]
+    good = []
+    why = []
+    for x in ws:
+        v = [fold(e) for e in flow(n).term_arg(x.bb, 1)] if x.op in ("store", "swap", "fetch_or") else None
+        on_slot = bool(x.recv) and all(deps(n, [r_]) & {("param", 2)} for r_ in x.recv)
+        if v == [1] and on_slot:
+            good.append(x.bb)
+        else:
+            why.append({"op": x.op, "value": v, "on_the_slot_argument": on_slot, "where": x.sp})
+    once, w2 = exactly_once(n, good) if good else (False, "no atomic write of true into the slot")
+    ctx.check(bool(good) and not why and once, rid, "flag-raised", "the flag of the slot argument is set to true exactly once per call, unconditionally", st0.span,
+              {"other_writes": why, "paths": w2})
+
+
 def rule_d(ctx):
     """each delivery yields at most one, faithful record: the per-signal channel must hand every cell index to exactly one owner"""
     from .C08 import rule_e as coherence
@@ -242,4 +269,5 @@ def run(ctx):
     ctx.guarded("C10.a", rule_a)
     ctx.guarded("C10.b", rule_b)
     ctx.guarded("C10.c", rule_c)
+    ctx.guarded("C10.g", rule_g)
     ctx.note("not decided: counting inequalities over histories (yielded <= delivered); per-signal record order (that is the channel's FIFO order, C06)")
